@@ -1,4 +1,5 @@
 import Wayfind.Proofs.RouterBasics
+import Wayfind.Proofs.Messages
 
 /-! # C19 — route-table errors carry the exact strings involved
 Payload half, on the model of `Router::{insert, delete, constraint}`: a conflict carries the template passed to
@@ -7,8 +8,14 @@ offered type name; an unknown-constraint error names a constraint that a part of
 and that the registry does not hold; a template error is the parser's error for exactly the text passed in (whose
 payload is C14). (That the conflict list is exactly the sorted, duplicate-free list of colliding live templates is
 C08; which live template a mismatch names is C09.)
-Status: **partial** — the rendered wording is not modelled; that every payload string occurs verbatim in the
-rendered message is checked on the implementation by the harness on every error of every run. -/
+Rendering half: `Model/Messages.lean` *interprets the format strings of the `impl Display` blocks of
+`src/errors/{insert,delete,constraint}.rs`, which the translator extracts on every run* (so this part of the model is
+regenerated from the source). `C19_rendered_*`: each rendered message contains every payload string verbatim — by a general
+lemma (a named argument of a format string occurs in the rendered text, `field_rendered`; every element occurs in a joined
+list, `conflict_in_list`) and generated obligations (`C19_formats_mention_payload`: each format string names each payload
+field; `C19_conflict_list_untrimmed`: nothing is applied to the joined list of conflicts after `join`). The model's text is
+compared byte for byte with the implementation's `to_string()` on every error of every run (class `render`).
+Status: proved on the model; the tie of the rendering model is the translator plus the exact text comparison. -/
 
 theorem C19_conflict_carries_input (r : Router) (t : Bytes) (d : Nat) (t' : Bytes) (cs : List Bytes)
     (h : r.insert t d = .error (.conflict t' cs)) : t' = t := by
@@ -96,3 +103,62 @@ theorem C19_template_error_is_parse_error (r : Router) (t : Bytes) (d : Nat) (e 
         repeat' split at h
         all_goals first | (cases h; done) | (rw [Router.deleteOk_fst] at h; split at h <;> cases h)
       · intro h; cases h
+
+/-- generated obligation: every format string mentions every payload field of its variant -/
+theorem C19_formats_mention_payload :
+    (Seg.field fTemplate ∈ parseFmt (fmtOf bConflict) ∧ Seg.field fConflicts ∈ parseFmt (fmtOf bConflict) ∧
+     Seg.field fConflict ∈ parseFmt Generated.conflictItemFormat) ∧
+    Seg.field fConstraint ∈ parseFmt (fmtOf bUnknownConstraint) ∧
+    Seg.field fTemplate ∈ parseFmt (fmtOf bNotFound) ∧
+    (Seg.field fTemplate ∈ parseFmt (fmtOf bMismatch) ∧ Seg.field fInserted ∈ parseFmt (fmtOf bMismatch)) ∧
+    (Seg.field fName ∈ parseFmt (fmtOf bDuplicateName) ∧ Seg.field fExisting ∈ parseFmt (fmtOf bDuplicateName) ∧
+     Seg.field fNew ∈ parseFmt (fmtOf bDuplicateName)) := by decide
+
+/-- generated obligation: the joined list of conflicts is used as it is (nothing trims or rewrites it) -/
+theorem C19_conflict_list_untrimmed : Generated.conflictChain = [[106, 111, 105, 110]] := by decide
+
+/-- the rendered `Conflict` message contains the template passed to insert and every conflicting template -/
+theorem C19_rendered_conflict (t : Bytes) (cs : List Bytes) :
+    t <:+: renderConflict t cs ∧ ∀ c ∈ cs, c <:+: renderConflict t cs := by
+  obtain ⟨⟨h1, h2, h3⟩, _⟩ := C19_formats_mention_payload
+  constructor
+  · have := field_rendered (fmtOf bConflict) (fun n => if n = fTemplate then t else if n = fConflicts then renderConflictList cs else []) fTemplate h1
+    simpa [renderConflict] using this
+  · intro c hc
+    have := field_rendered (fmtOf bConflict) (fun n => if n = fTemplate then t else if n = fConflicts then renderConflictList cs else []) fConflicts h2
+    have e : (if fConflicts = fTemplate then t else if fConflicts = fConflicts then renderConflictList cs else []) = renderConflictList cs := by
+      have : fConflicts ≠ fTemplate := by decide
+      simp [this]
+    simp only [e] at this
+    exact infix_trans' (conflict_in_list cs c hc h3) this
+
+theorem C19_rendered_unknown_constraint (c : Bytes) : c <:+: renderUnknownConstraint c := by
+  have := field_rendered (fmtOf bUnknownConstraint) (fun n => if n = fConstraint then c else []) fConstraint C19_formats_mention_payload.2.1
+  simpa [renderUnknownConstraint] using this
+
+theorem C19_rendered_not_found (t : Bytes) : t <:+: renderNotFound t := by
+  have := field_rendered (fmtOf bNotFound) (fun n => if n = fTemplate then t else []) fTemplate C19_formats_mention_payload.2.2.1
+  simpa [renderNotFound] using this
+
+theorem C19_rendered_mismatch (t i : Bytes) : t <:+: renderMismatch t i ∧ i <:+: renderMismatch t i := by
+  obtain ⟨h1, h2⟩ := C19_formats_mention_payload.2.2.2.1
+  constructor
+  · have := field_rendered (fmtOf bMismatch) (fun n => if n = fTemplate then t else if n = fInserted then i else []) fTemplate h1
+    simpa [renderMismatch] using this
+  · have := field_rendered (fmtOf bMismatch) (fun n => if n = fTemplate then t else if n = fInserted then i else []) fInserted h2
+    have e : fInserted ≠ fTemplate := by decide
+    simpa [renderMismatch, e] using this
+
+theorem C19_rendered_duplicate_name (name ex new : Bytes) :
+    name <:+: renderDuplicateName name ex new ∧ ex <:+: renderDuplicateName name ex new ∧ new <:+: renderDuplicateName name ex new := by
+  obtain ⟨h1, h2, h3⟩ := C19_formats_mention_payload.2.2.2.2
+  refine ⟨?_, ?_, ?_⟩
+  · have := field_rendered (fmtOf bDuplicateName) (fun n => if n = fName then name else if n = fExisting then ex else if n = fNew then new else []) fName h1
+    simpa [renderDuplicateName] using this
+  · have := field_rendered (fmtOf bDuplicateName) (fun n => if n = fName then name else if n = fExisting then ex else if n = fNew then new else []) fExisting h2
+    have e : fExisting ≠ fName := by decide
+    simpa [renderDuplicateName, e] using this
+  · have := field_rendered (fmtOf bDuplicateName) (fun n => if n = fName then name else if n = fExisting then ex else if n = fNew then new else []) fNew h3
+    have e1 : fNew ≠ fName := by decide
+    have e2 : fNew ≠ fExisting := by decide
+    simpa [renderDuplicateName, e1, e2] using this
